@@ -3,8 +3,9 @@ package main
 // Busstress family (supporting C01, C02, C04, C07, C09): free-running goroutines, no controller.  Interleavings inside
 // the bus's own code (which the controller cannot force: they contain no user callback) are sampled by running many
 // publishers, subscription churn and queries concurrently; what is checked needs no global order: every stable handler
-// got every event exactly once, Once handlers fired exactly once, Sequential handlers never overlapped, the registry
-// ends where it should, and the log holds one record per publish in increasing offset order.
+// got every event exactly once, Once handlers fired exactly once, Sequential handlers never overlapped and saw each
+// publisher's events in the order it published them, the registry ends where it should, and the log holds one record
+// per publish in increasing offset order.
 
 import (
 	"context"
@@ -22,6 +23,8 @@ type stE struct{ G, I int }
 type stHandler struct {
 	mu       sync.Mutex
 	seen     map[stE]int
+	last     map[int]int // per publishing goroutine: the last event index seen (Sequential handlers)
+	misorder int         // events seen after a later event of the same publishing goroutine
 	inside   atomic.Int32
 	overlaps atomic.Int32
 	seq      bool
@@ -36,6 +39,13 @@ func (h *stHandler) on(e stE) {
 	}
 	h.mu.Lock()
 	h.seen[e]++
+	if h.seq {
+		if prev, ok := h.last[e.G]; ok && e.I < prev {
+			h.misorder++
+		} else {
+			h.last[e.G] = e.I
+		}
+	}
 	h.mu.Unlock()
 	if e.I%3 == 0 {
 		runtime.Gosched()
@@ -59,7 +69,7 @@ func runBusStress(rng *rand.Rand, idx int, tier string) Case {
 	stable := make([]*stHandler, nst)
 	kinds := make([]int, nst)
 	for i := range stable {
-		h := &stHandler{seen: map[stE]int{}}
+		h := &stHandler{seen: map[stE]int{}, last: map[int]int{}}
 		stable[i] = h
 		kinds[i] = rng.Intn(4) // 0 sync, 1 async, 2 sequential, 3 async+sequential
 		var so []eb.SubscribeOption
@@ -284,7 +294,49 @@ func runBusStress(rng *rand.Rand, idx int, tier string) Case {
 		}
 		eb.Clear[stS](bus)
 	}
+	// ---- phase 5: one goroutine publishes a burst to a fresh Async+Sequential handler, which must process it in
+	// publish order however the delivery goroutines are scheduled (every other round on a single P, where the most
+	// recently started goroutine runs first) ----
+	type stQ struct{ R, I int }
+	burstRounds := 30
+	if tier == "thorough" {
+		burstRounds = 200
+	}
+	burstBad := 0
+	for r := 0; r < burstRounds; r++ {
+		var bmu sync.Mutex
+		var got []int
+		eb.Subscribe(bus, func(e stQ) {
+			bmu.Lock()
+			got = append(got, e.I)
+			bmu.Unlock()
+			if e.I%2 == 0 {
+				runtime.Gosched()
+			}
+		}, eb.Async(), eb.Sequential())
+		if r%2 == 0 {
+			runtime.GOMAXPROCS(1)
+		}
+		for i := 0; i < 8; i++ {
+			guard(func() { eb.Publish(bus, stQ{r, i}) })
+		}
+		bus.Wait()
+		if r%2 == 0 {
+			runtime.GOMAXPROCS(procs)
+		}
+		bad := len(got) != 8
+		for i, n := range got {
+			if n != i {
+				bad = true
+			}
+		}
+		if bad {
+			burstBad++
+		}
+		eb.Clear[stQ](bus)
+	}
 	// ---- observations ----
+	misorder := 0
 	var stT []T
 	for _, h := range stable {
 		h.mu.Lock()
@@ -298,6 +350,7 @@ func runBusStress(rng *rand.Rand, idx int, tier string) Case {
 				}
 			}
 		}
+		misorder += h.misorder
 		h.mu.Unlock()
 		stT = append(stT, Tup(Nat(total), Nat(bad), Nat(int(h.overlaps.Load()))))
 	}
@@ -315,7 +368,7 @@ func runBusStress(rng *rand.Rand, idx int, tier string) Case {
 	sort.Strings(tags)
 	return Case{Input: Tup(Nat(nst), Nat(nonce), Nat(G*M), B(withStore)),
 		Obs: C("Build_stobs", L(stT...), L(onceT...), Nat(eb.HandlerCount[stE](bus)), Nat(records), Nat(disorder), Nat(int(escaped.Load())),
-			Nat(onceLost), Nat(onceStale), Nat(deadSeen), Nat(probeBad), Nat(freshOverlap)),
+			Nat(onceLost), Nat(onceStale), Nat(deadSeen), Nat(probeBad), Nat(freshOverlap), Nat(misorder), Nat(burstBad)),
 		Tags:       tags,
 		Nontrivial: true}
 }
